@@ -120,19 +120,21 @@ UNITS += [
     U("U-step-plain-frame", ["VueJsxTransformVisitor::transform_attrs[plain arm]"], ["step_other_fullstate", "step_nativeon_fullstate"], ["C13", "C01"], completeness="bounded",
       domain="as U-step-plain with non-empty earlier props / merge arguments / dynamic props (frame: they are kept in place)", mem_gb=12, timeout=900, unwindset={"memcmp.0": 21}, tier="thorough",
       assumes=[A_DROP, A_CLONE, A_TT, A_CONST, A_FMT, A_EXTRACT]),
-    U("U-step-spread", ["VueJsxTransformVisitor::transform_attrs[spread arm]", "util::dedupe_props"], ["step_spread_expr", "step_spread_object"], ["C13", "C01"], completeness="bounded",
-      domain="spread arm: {expression, object literal} x symbolic state and options; earlier props list of length <= 1; dedupe_props replaced by identity (own unit U-dedupe)", mem_gb=24, timeout=1800, tier="thorough", unwindset={"memcmp.0": 12}, assumes=[A_DROP, A_CLONE, A_FMT, A_EXTRACT]),
+    U("U-step-spread", ["VueJsxTransformVisitor::transform_attrs[spread arm]"], ["step_spread_expr_merge", "step_spread_expr_nomerge", "step_spread_expr_prev_merge", "step_spread_expr_prev_nomerge",
+      "step_spread_object_merge", "step_spread_object_nomerge", "step_spread_object_prev_merge", "step_spread_object_prev_nomerge"], ["C13", "C01"], completeness="bounded",
+      domain="spread arm: {expression, object literal} x {no earlier prop, one earlier prop} x mergeProps {on, off} (concrete per harness) x symbolic analysis state and other options; dedupe_props replaced by identity (own unit U-dedupe)",
+      mem_gb=8, timeout=900, unwindset={"memcmp.0": 12}, assumes=[A_DROP, A_CLONE, A_FMT, A_EXTRACT]),
     U("U-step-spread-flag", ["VueJsxTransformVisitor::transform_attrs[spread arm]"], ["step_spread_flag_expr", "step_spread_flag_object"], ["C13"],
       domain="spread arm, hint effect: {expression, object literal} x symbolic options, empty earlier lists", mem_gb=10, timeout=900, unwindset={"memcmp.0": 12}, assumes=[A_DROP, A_CLONE, A_FMT, A_EXTRACT]),
     U("U-flagfinal", ["VueJsxTransformVisitor::transform_attrs[finalisation]"], ["step_finalize"], ["C13"],
       domain="all 2^7 combinations of the analysis booleans: complete", mem_gb=6, timeout=600, assumes=[A_DROP, A_EXTRACT]),
     U("U-assemble", ["VueJsxTransformVisitor::transform_attrs[props assembly]", "util::dedupe_props"], ["asm_none", "asm_one_prop", "asm_two_props", "asm_lone_spread", "asm_one_merge", "asm_two_merge", "asm_merge_and_props", "asm_two_merge_and_props", "asm_repeated_plain", "asm_repeated_class"], ["C01"],
       completeness="bounded", domain="props list of length 0..2 or a lone spread x merge-argument list of length 0..2 x symbolic options", mem_gb=8, timeout=900, unwindset={"memcmp.0": 12}, assumes=[A_DROP, A_CLONE, A_FMT, A_EXTRACT]),
-    U("U-step-dir", ["VueJsxTransformVisitor::transform_attrs[directive arm]"], ["step_dir_normal", "step_dir_html", "step_dir_text", "step_slots_some", "step_slots_none"], ["C04", "C13", "C03"],
+    U("U-step-dir", ["VueJsxTransformVisitor::transform_attrs[directive arm]"], ["step_dir_normal", "step_dir_normal_comp", "step_dir_html", "step_dir_html_comp", "step_dir_text", "step_slots_some", "step_slots_none"], ["C04", "C13", "C03"],
       domain="directive arm from an arbitrary analysis state: parse results {normal, html, text, v-slots value / none} x symbolic host kind and options; complete over these parse-result kinds",
       mem_gb=8, timeout=900, unwindset={"memcmp.0": 21}, assumes=[A_DROP, A_CLONE, A_PD, A_FMT, A_EXTRACT]),
-    U("U-step-vmodel", ["VueJsxTransformVisitor::transform_attrs[directive arm, v-model]"], ["step_vmodel_plain", "step_vmodel_computed", "step_vmodel_nullarg"], ["C05", "C13"], tier="thorough",
-      domain="v-model arm: argument {absent, null, computed} x modifiers x symbolic host kind and options", mem_gb=24, timeout=2400, unwindset={"memcmp.0": 21}, assumes=[A_DROP, A_CLONE, A_PD, A_FMT, A_EXTRACT]),
+    U("U-step-vmodel", ["VueJsxTransformVisitor::transform_attrs[directive arm, v-model]"], ["step_vmodel_plain", "step_vmodel_plain_comp", "step_vmodel_computed", "step_vmodel_computed_elem", "step_vmodel_nullarg", "step_vmodel_nullarg_comp"], ["C05", "C13"], tier="thorough",
+      domain="v-model arm: argument {absent, null, computed} x host kind (concrete per harness) x symbolic options; needs > 16 GB per harness (all three key forms are explored at each of the three match sites)", mem_gb=40, timeout=5400, unwindset={"memcmp.0": 21}, assumes=[A_DROP, A_CLONE, A_PD, A_FMT, A_EXTRACT]),
     U("U-step-on-strict", ["VueJsxTransformVisitor::transform_attrs[plain arm]"], ["step_on_strict"], ["C13"], domain="dynamic `on` attribute, transformOn off, symbolic state", mem_gb=6, timeout=600,
       unwindset={"memcmp.0": 21}, assumes=[A_DROP, A_CLONE, A_CONST, A_TT, A_FMT, A_EXTRACT]),
     U("L-flags", ["lemma over the contracts of U-step-plain / U-step-spread / U-step-dir / U-flagfinal"], ["flags_lemma"], ["C13"], backend="verus",
